@@ -31,7 +31,7 @@ REQUIRED_CLASSES = ["op:transfer", "op:distribute", "op:aspirate", "op:dispense"
 @st.composite
 def _case(draw, focus, tier="quick"):
     n = draw(st.sampled_from([1, 2, 2, 2, 3]))
-    names = ["Alpha", "Beta plate ", " Gamma_3"]
+    names = ["Alpha 70%", "Beta plate ", " Gamma_3"]
     labs = []
     for i in range(n):
         if i == 0:
@@ -215,5 +215,15 @@ def check_case(case) -> Obs:
                 obs.bad("C16/base-exception", f"{desc}: BaseWorklist raised {type(sb.exc).__name__}: {sb.exc}")
         if obs.violations:
             break
+    _msg = evo.templates_changed()
+    if _msg:
+        obs.bad("C16/untouched-object-changed", _msg)
+    if evo.templates:
+        obs.cls("cloned-labware")
+    _msg = flu.templates_changed()
+    if _msg:
+        obs.bad("C16/untouched-object-changed", _msg)
+    if flu.templates:
+        obs.cls("cloned-labware")
     obs.nontrivial = saw_trough and saw_plate
     return obs
